@@ -3,9 +3,10 @@
    accessors. Memory = base pattern + sparse overrides, so states stay small at real geometry. *)
 EXTENDS Integers, Sequences, FiniteSets, TLC, Json, Bitwise
 GFX == 0   MAPB == 8192   GFF == 12288   MUS == 12544   SFX == 12800   TOP == 17152
-Base(a) == (a * 37 + 11) % 256
-VARIABLES ov, step, last
-vars == <<ov, step, last>>
+CONSTANTS BaseMul, BaseAdd     \* prior contents: an arbitrary but fixed pattern per run
+Base(a) == (a * BaseMul + (a \div 64) * 13 + BaseAdd) % 256
+VARIABLES ov, step, last, sid
+vars == <<ov, step, last, sid>>
 Rd(f, a) == IF a \in DOMAIN f THEN f[a] ELSE Base(a)
 Wr(f, a, v) == [x \in (DOMAIN f) \cup {a} |-> IF x = a THEN v ELSE f[x]]
 \* ---------------- gfx ----------------
@@ -52,37 +53,103 @@ SetNoteF(f, id, n, p, w, v, e) ==
       lsb == p2 + (w2 % 4) * 64
       msb == ((w2 \div 4) % 2) + v2 * 2 + e2 * 16 + (w2 \div 8) * 128
   IN Wr(Wr(f, NoteAddr(id, n), lsb), NoteAddr(id, n) + 1, msb)
+\* ---------------- map pixels: tile 0 renders empty ----------------
+GetRectPixelsV(f, x, y, w, h) == [pr \in 1..(h * 8) |-> [pc \in 1..(w * 8) |->
+     LET r == ((pr - 1) \div 8) + 1  c == ((pc - 1) \div 8) + 1
+         id == IF x + c - 1 > 127 \/ y + r - 1 > 63 THEN 0 ELSE Rd(f, CellAddr(x + c - 1, y + r - 1))
+     IN IF id = 0 THEN 0 ELSE GetPx(f, (id % 16) * 8 + ((pc - 1) % 8), (id \div 16) * 8 + ((pr - 1) % 8))]]
+\* ---------------- sfx properties: bytes 64..67 of a pattern ----------------
+SfxPropV(f, id) == << Rd(f, SFX + id * 68 + 64), Rd(f, SFX + id * 68 + 65), Rd(f, SFX + id * 68 + 66), Rd(f, SFX + id * 68 + 67) >>
+WrIf(f, a, v) == IF v < 0 THEN f ELSE Wr(f, a, v)
+SetSfxPropF(f, id, m, d, ls, le) == WrIf(WrIf(WrIf(WrIf(f, SFX + id * 68 + 64, m), SFX + id * 68 + 65, d), SFX + id * 68 + 66, ls), SFX + id * 68 + 67, le)
+\* ---------------- music: 4 bytes per pattern; low 7 bits channel (>63 = silent), bit 7 of bytes 0..2 = begin / end / stop ----------------
+GetChannelV(f, id, ch) == LET p == Rd(f, MUS + id * 4 + ch) % 128 IN IF p > 63 THEN 0 - 1 ELSE p
+\* pat = -1 means silent: any value 64..127 may be stored (the spec does not fix which); low 7 bits otherwise
+SetChannelOK(f, f2, id, ch, pat) ==
+   LET a == MUS + id * 4 + ch IN
+   /\ \A x \in (DOMAIN f2) \cup (DOMAIN f) : x # a => Rd(f2, x) = Rd(f, x)
+   /\ Rd(f2, a) \div 128 = Rd(f, a) \div 128
+   /\ IF pat < 0 THEN Rd(f2, a) % 128 > 63 ELSE Rd(f2, a) % 128 = pat
+SetChannelF(f, id, ch, pat) == LET a == MUS + id * 4 + ch IN Wr(f, a, (Rd(f, a) \div 128) * 128 + (IF pat < 0 THEN 65 + ch ELSE pat))
+MusPropV(f, id) == << Rd(f, MUS + id * 4) \div 128, Rd(f, MUS + id * 4 + 1) \div 128, Rd(f, MUS + id * 4 + 2) \div 128 >>
+SetBit7(f, a, v) == IF v < 0 THEN f ELSE Wr(f, a, (Rd(f, a) % 128) + v * 128)
+SetMusPropF(f, id, b, e, s) == SetBit7(SetBit7(SetBit7(f, MUS + id * 4, b), MUS + id * 4 + 1, e), MUS + id * 4 + 2, s)
 \* ---------------- operations (argument domains focus on the edges) ----------------
 Ids == {0, 15, 16, 127, 239, 240, 255}
 Offs == {0, 1, 7, 8, 9}
 Rows == { << <<1,2,3>> >>, << <<5>>, <<16,6>>, <<7,16,8,9,10,11,12,13,14>> >>,
           << <<15,15,15,15,15,15,15,15,15>>, <<>>, <<3>> >> , [r \in 1..9 |-> <<4, 16>>] }
 Rects == { << <<1,2>> , <<3>> >>, << <<200,201,202>> >>, [r \in 1..3 |-> <<9>>] }
-Op(rec, f2, ret) == /\ ov' = f2 /\ step' = step + 1
-                    /\ last' = [op |-> rec, ret |-> ret, ov |-> [a \in DOMAIN f2 |-> f2[a]]]
-Next ==
-  \/ \E id \in Ids, rows \in Rows, xo \in Offs, yo \in Offs :
-        Op([n |-> "set_sprite", id |-> id, rows |-> rows, xo |-> xo, yo |-> yo], SetSpriteF(ov, id, rows, xo, yo), <<>>)
-  \/ \E id \in Ids, tw \in {1, 2}, th \in {1, 2} :
-        Op([n |-> "get_sprite", id |-> id, tw |-> tw, th |-> th], ov, GetSpriteV(ov, id, tw, th))
-  \/ \E x \in {0, 1, 126, 127}, y \in {0, 31, 32, 62, 63}, v \in {0, 1, 255} :
-        Op([n |-> "set_cell", x |-> x, y |-> y, v |-> v], Wr(ov, CellAddr(x, y), v), <<>>)
-  \/ \E x \in {0, 127}, y \in {0, 31, 32, 63} :
-        Op([n |-> "get_cell", x |-> x, y |-> y], ov, Rd(ov, CellAddr(x, y)))
-  \/ \E rect \in Rects, x \in {0, 125, 126, 127}, y \in {0, 30, 31, 61, 62, 63} :
-        Op([n |-> "set_rect", rect |-> rect, x |-> x, y |-> y], PutRect(ov, rect, 1, 1, x, y), <<>>)
-  \/ \E x \in {0, 126}, y \in {30, 61}, w \in {1, 3}, h \in {1, 3} :
-        Op([n |-> "get_rect", x |-> x, y |-> y, w |-> w, h |-> h], ov, GetRectV(ov, x, y, w, h))
-  \/ \E id \in {0, 255}, fl \in {1, 130, 255} :
-        \/ Op([n |-> "set_flags", id |-> id, fl |-> fl], Wr(ov, GFF + id, Rd(ov, GFF + id) | fl), <<>>)
-        \/ Op([n |-> "clear_flags", id |-> id, fl |-> fl], Wr(ov, GFF + id, Rd(ov, GFF + id) & (255 - fl)), <<>>)
-        \/ Op([n |-> "reset_flags", id |-> id, fl |-> fl], Wr(ov, GFF + id, fl), <<>>)
-        \/ Op([n |-> "get_flags", id |-> id, fl |-> fl], ov, Rd(ov, GFF + id) & fl)
-  \/ \E id \in {0, 63}, nt \in {0, 31}, p \in {0 - 1, 0, 63}, w \in {0 - 1, 5, 8, 15}, v \in {0 - 1, 7}, e \in {0 - 1, 0, 7} :
-        Op([n |-> "set_note", id |-> id, note |-> nt, p |-> p, w |-> w, v |-> v, e |-> e], SetNoteF(ov, id, nt, p, w, v, e), <<>>)
-  \/ \E id \in {0, 63}, nt \in {0, 31} :
-        Op([n |-> "get_note", id |-> id, note |-> nt], ov, GetNoteV(ov, id, nt))
-Init == ov = <<>> /\ step = 0 /\ last = <<>>
+\* every operation as a record; Do(f, op) = [f |-> memory after, ret |-> return value]
+OpSet ==
+  {[n |-> "set_sprite", id |-> id, rows |-> rows, xo |-> xo, yo |-> yo] : id \in Ids, rows \in Rows, xo \in Offs, yo \in Offs} \cup
+  {[n |-> "get_sprite", id |-> id, tw |-> tw, th |-> th] : id \in Ids, tw \in {1, 2}, th \in {1, 2}} \cup
+  {[n |-> "set_cell", x |-> x, y |-> y, v |-> v] : x \in {0, 1, 126, 127}, y \in {0, 31, 32, 62, 63}, v \in {0, 1, 255}} \cup
+  {[n |-> "get_cell", x |-> x, y |-> y] : x \in {0, 127}, y \in {0, 31, 32, 63}} \cup
+  {[n |-> "set_rect", rect |-> rect, x |-> x, y |-> y] : rect \in Rects, x \in {0, 125, 126, 127}, y \in {0, 30, 31, 61, 62, 63}} \cup
+  {[n |-> "get_rect", x |-> x, y |-> y, w |-> w, h |-> h] : x \in {0, 126}, y \in {30, 61}, w \in {1, 3}, h \in {1, 3}} \cup
+  {[n |-> nm, id |-> id, fl |-> fl] : nm \in {"set_flags", "clear_flags", "reset_flags", "get_flags"}, id \in {0, 255}, fl \in {1, 130, 255}} \cup
+  {[n |-> "set_note", id |-> id, note |-> nt, p |-> p, w |-> w, v |-> v, e |-> e] :
+        id \in {0, 63}, nt \in {0, 31}, p \in {0 - 1, 0, 63}, w \in {0 - 1, 5, 8, 15}, v \in {0 - 1, 7}, e \in {0 - 1, 0, 7}} \cup
+  {[n |-> "get_note", id |-> id, note |-> nt] : id \in {0, 63}, nt \in {0, 31}} \cup
+  {[n |-> "get_rect_pixels", x |-> x, y |-> y, w |-> w, h |-> h] : x \in {0, 126}, y \in {0, 31, 62}, w \in {1, 2}, h \in {1, 2}} \cup
+  {[n |-> "sfx_set_properties", id |-> id, m |-> m, d |-> d, ls |-> ls, le |-> le] :
+        id \in {0, 1, 63}, m \in {0 - 1, 1}, d \in {0 - 1, 0, 255}, ls \in {0 - 1, 63}, le \in {0 - 1, 0, 200}} \cup
+  {[n |-> "sfx_get_properties", id |-> id] : id \in {0, 1, 63}} \cup
+  {[n |-> "set_channel", id |-> id, ch |-> ch, pat |-> pat] : id \in {0, 63}, ch \in 0..3, pat \in {0 - 1, 0, 63}} \cup
+  {[n |-> "get_channel", id |-> id, ch |-> ch] : id \in {0, 63}, ch \in 0..3} \cup
+  {[n |-> "music_set_properties", id |-> id, b |-> b, e |-> e, s |-> s] : id \in {0, 62, 63}, b \in {0 - 1, 0, 1}, e \in {0 - 1, 0, 1}, s \in {0 - 1, 0, 1}} \cup
+  {[n |-> "music_get_properties", id |-> id] : id \in {0, 62, 63}}
+R(f, ret) == [f |-> f, ret |-> ret]
+Do(f, op) ==
+  CASE op.n = "set_sprite" -> R(SetSpriteF(f, op.id, op.rows, op.xo, op.yo), <<>>)
+    [] op.n = "get_sprite" -> R(f, GetSpriteV(f, op.id, op.tw, op.th))
+    [] op.n = "set_cell" -> R(Wr(f, CellAddr(op.x, op.y), op.v), <<>>)
+    [] op.n = "get_cell" -> R(f, Rd(f, CellAddr(op.x, op.y)))
+    [] op.n = "set_rect" -> R(PutRect(f, op.rect, 1, 1, op.x, op.y), <<>>)
+    [] op.n = "get_rect" -> R(f, GetRectV(f, op.x, op.y, op.w, op.h))
+    [] op.n = "set_flags" -> R(Wr(f, GFF + op.id, Rd(f, GFF + op.id) | op.fl), <<>>)
+    [] op.n = "clear_flags" -> R(Wr(f, GFF + op.id, Rd(f, GFF + op.id) & (255 - op.fl)), <<>>)
+    [] op.n = "reset_flags" -> R(Wr(f, GFF + op.id, op.fl), <<>>)
+    [] op.n = "get_flags" -> R(f, Rd(f, GFF + op.id) & op.fl)
+    [] op.n = "set_note" -> R(SetNoteF(f, op.id, op.note, op.p, op.w, op.v, op.e), <<>>)
+    [] op.n = "get_note" -> R(f, GetNoteV(f, op.id, op.note))
+    [] op.n = "get_rect_pixels" -> R(f, GetRectPixelsV(f, op.x, op.y, op.w, op.h))
+    [] op.n = "sfx_set_properties" -> R(SetSfxPropF(f, op.id, op.m, op.d, op.ls, op.le), <<>>)
+    [] op.n = "sfx_get_properties" -> R(f, SfxPropV(f, op.id))
+    [] op.n = "set_channel" -> R(SetChannelF(f, op.id, op.ch, op.pat), <<>>)
+    [] op.n = "get_channel" -> R(f, GetChannelV(f, op.id, op.ch))
+    [] op.n = "music_set_properties" -> R(SetMusPropF(f, op.id, op.b, op.e, op.s), <<>>)
+    [] op.n = "music_get_properties" -> R(f, MusPropV(f, op.id))
+CONSTANTS MaxSteps, NSeq
+\* one random operation per step (RandomElement: exactly one successor, so a run of the model
+\* checker prints NSeq histories of MaxSteps operations each)
+Next == /\ step < MaxSteps
+        /\ \E op \in {RandomElement(OpSet)} : \E r \in {Do(ov, op)} :      \* (bound once: LET would re-draw)
+             /\ ov' = r.f /\ step' = step + 1 /\ sid' = sid
+             /\ last' = [op |-> op, ret |-> r.ret, ov |-> [a \in DOMAIN r.f |-> r.f[a]]]
+Init == ov = <<>> /\ step = 0 /\ last = <<>> /\ sid \in 1..NSeq
 Spec == Init /\ [][Next]_vars
-Emit == step > 0 => PrintT(ToJson([step |-> step, op |-> last.op, ret |-> last.ret, ov |-> last.ov]))
+\* ---- the model's own laws, checked exhaustively over all operations for histories of length <= MaxSteps ----
+MCNext == step < MaxSteps /\ \E op \in OpSet : \E r \in {Do(ov, op)} :
+             /\ ov' = r.f /\ step' = step + 1 /\ sid' = sid
+             /\ last' = [op |-> op, ret |-> r.ret, ov |-> ov]          \* ov = memory BEFORE the op
+MCSpec == Init /\ [][MCNext]_vars
+Getters == {"get_sprite", "get_cell", "get_rect", "get_flags", "get_note", "get_rect_pixels", "sfx_get_properties", "get_channel", "music_get_properties"}
+\* a getter changes nothing; a setter changes only addresses of its own region (map setters may touch aliased gfx)
+RegionOf(a) == IF a < MAPB THEN "gfx" ELSE IF a < GFF THEN "map" ELSE IF a < MUS THEN "gff" ELSE IF a < SFX THEN "music" ELSE "sfx"
+Allowed(n) == CASE n = "set_sprite" -> {"gfx"} [] n \in {"set_cell", "set_rect"} -> {"map", "gfx"}
+                [] n \in {"set_flags", "clear_flags", "reset_flags"} -> {"gff"} [] n \in {"set_note", "sfx_set_properties"} -> {"sfx"}
+                [] n \in {"set_channel", "music_set_properties"} -> {"music"} [] OTHER -> {}
+Changed(f, g) == {a \in (DOMAIN f) \cup (DOMAIN g) : Rd(f, a) # Rd(g, a)}
+FrameLaw == step > 0 => \A a \in Changed(last.ov, ov) : a >= 0 /\ a < TOP /\ RegionOf(a) \in Allowed(last.op.n)
+\* a map setter touches gfx memory only in the shared half (0x1000..0x1fff)
+AliasLaw == step > 0 /\ last.op.n \in {"set_cell", "set_rect"} => \A a \in Changed(last.ov, ov) : a >= 4096
+\* read-after-write: a cell / flag byte just set reads back
+ReadAfterWrite == step > 0 =>
+   /\ (last.op.n = "set_cell" => Rd(ov, CellAddr(last.op.x, last.op.y)) = last.op.v)
+   /\ (last.op.n = "reset_flags" => Rd(ov, GFF + last.op.id) = last.op.fl)
+   /\ (last.op.n = "set_note" /\ last.op.p >= 0 => GetNoteV(ov, last.op.id, last.op.note)[1] = last.op.p)
+   /\ (last.op.n = "set_note" /\ last.op.w >= 0 => GetNoteV(ov, last.op.id, last.op.note)[2] = last.op.w)
+Emit == step > 0 => PrintT(ToJson([sid |-> sid, step |-> step, op |-> last.op, ret |-> last.ret, ov |-> last.ov]))
 =============================================================================
